@@ -238,6 +238,94 @@ Definition type_errs (mt : list (string * string)) (p : program) : list string :
   ty_block mt [] (member_env p) [] (p_body p).
 Definition types_ok (mt : list (string * string)) (p : program) : bool := is_nil (type_errs mt p).
 
+(* ---------- vector element types (C++: distinct specialisations of std::vector do not convert) ---------- *)
+(* `static_cast<std::vector<A>>(v)` with v declared std::vector<B>, B <> A, is ill-formed: std::vector has no
+   converting constructor between element types.  `x.push_back(v)` with x declared std::vector<E> and v declared a
+   vector type other than E is ill-formed for the same reason.  Both rules compare DECLARED type texts (spaces
+   removed) and only speak when both sides are declared vector types, so `auto` variables and scalar casts are never
+   rejected.  Reported under types_ok by c02.check; the theorems about types_ok do not depend on these rules. *)
+Fixpoint nospace (s : string) : string :=
+  match s with
+  | EmptyString => EmptyString
+  | String c r => if Ascii.eqb c " "%char then nospace r else String c (nospace r)
+  end.
+Definition vec_elem (t : string) : option string :=
+  if is_vector_type t then Some (substring 12 (String.length t - 13) t) else None.
+Definition var_vtype (G : senv) (M : sframe) (x : string) : option string :=
+  match slookup x G M with
+  | Some (t, _) => let t' := nospace t in if is_vector_type t' then Some t' else None
+  | None => None
+  end.
+
+Definition vt_cast (G : senv) (M : sframe) (ty : string) (a : cexp) : list string :=
+  match a with
+  | CVar y => match var_vtype G M y with
+              | Some t => if is_vector_type (nospace ty) && negb (String.eqb (nospace ty) t) then ["vector-cast:" +++ y] else []
+              | None => []
+              end
+  | _ => []
+  end.
+
+Fixpoint vt_exp (G : senv) (M : sframe) (e : cexp) {struct e} : list string :=
+  match e with
+  | CBin _ a b => vt_exp G M a ++ vt_exp G M b
+  | CSubI a b => vt_exp G M a ++ vt_exp G M b
+  | CUn _ a => vt_exp G M a
+  | CNot a => vt_exp G M a
+  | CDeref a => vt_exp G M a
+  | CCast ty a => vt_cast G M ty a ++ vt_exp G M a
+  | CCall _ args => vt_args G M args
+  | CMeth o _ _ args => vt_exp G M o ++ vt_args G M args
+  | CField o _ _ => vt_exp G M o
+  | _ => []
+  end
+with vt_args (G : senv) (M : sframe) (l : cexps) {struct l} : list string :=
+  match l with CNil => [] | CCons e r => vt_exp G M e ++ vt_args G M r end.
+
+(* the declared vector type of what is pushed, when it is a variable or a cast to a vector type *)
+Definition pushed_vtype (G : senv) (M : sframe) (e : cexp) : option string :=
+  match e with
+  | CVar y => var_vtype G M y
+  | CCast ty _ => if is_vector_type (nospace ty) then Some (nospace ty) else None
+  | _ => None
+  end.
+Definition vt_push (G : senv) (M : sframe) (x : string) (e : cexp) : list string :=
+  match var_vtype G M x, pushed_vtype G M e with
+  | Some tx, Some te => match vec_elem tx with
+                        | Some el => if String.eqb el te then [] else ["push-element-type:" +++ x]
+                        | None => []
+                        end
+  | _, _ => []
+  end.
+
+Fixpoint vt_decls (G : senv) (M : sframe) (cur : sframe) (ds : list decl) : list string :=
+  match ds with
+  | [] => []
+  | d :: r =>
+      match d_init d with None => [] | Some e => vt_exp (cur :: G) M e end
+      ++ vt_decls G M (cur ++ [entry_of_decl d]) r
+  end.
+
+Fixpoint vt_stmt (G : senv) (M : sframe) (s : stmt) {struct s} : list string :=
+  match s with
+  | SSet _ _ e => vt_exp G M e
+  | SPush x _ e => vt_exp G M e ++ vt_push G M x e
+  | SFor x e b => vt_exp G M e ++ vt_block G M [loop_entry x] b
+  | SIf c b els =>
+      vt_exp G M c ++ vt_block G M [] b ++ match els with Some b2 => vt_block G M [] b2 | None => [] end
+  | SBlk b => vt_block G M [] b
+  | _ => []
+  end
+with vt_block (G : senv) (M : sframe) (pre : sframe) (b : block) {struct b} : list string :=
+  match b with
+  | Blk ds body => vt_decls G M pre ds ++ vt_stmts ((pre ++ map entry_of_decl ds) :: G) M body
+  end
+with vt_stmts (G : senv) (M : sframe) (l : stmts) {struct l} : list string :=
+  match l with SNil => [] | SCons s r => vt_stmt G M s ++ vt_stmts G M r end.
+
+Definition vtype_errs (p : program) : list string := vt_block [] (member_env p) [] (p_body p).
+Definition vtypes_ok (p : program) : bool := is_nil (vtype_errs p).
+
 (* ---------- wire: c02.check (program, method table) -> the four error lists ---------- *)
 Definition d_pair_ss (s : sexp) : option (string * string) :=
   match s with SList [SAtom a; SAtom b] => Some (a, b) | _ => None end.
@@ -249,7 +337,7 @@ Definition run_check (s : sexp) : sexp :=
       | Some p', Some mt =>
           s_tag "ok" [s_tag "unique_decls" [s_strs (dup_errs p')];
                       s_tag "well_scoped" [s_strs (scope_errs p')];
-                      s_tag "types_ok" [s_strs (type_errs mt p')];
+                      s_tag "types_ok" [s_strs (type_errs mt p' ++ vtype_errs p')];
                       s_tag "branch_members" [s_strs (branch_errs p')]]
       | _, _ => bad_input
       end
